@@ -373,11 +373,11 @@ def run(P, rep, tier):
     r_conversion_sites(P, rep, 'R01.4')
     r_return_conversion(P, rep)
     from ..lib_c01unary import r_unary_operators, r_incdec, r_bitfield_operands
-    rep.rule('R01.14', 'unary + - ~ !: the tree unary() builds, typed by add_type, has the C11 type (the promoted type of the operand; int for !) and value for every integer operand type, and leaves the operand unmodified (C11 6.5.3.3)', floor=40)
+    rep.rule('R01.14', 'unary + - ~ !: the tree unary() builds, typed by add_type, has the C11 type (the promoted type of the operand; int for !) and value for every integer operand type, and leaves the operand unmodified (C11 6.5.3.3)', floor=50)
     r_unary_operators(P, rep, 'R01.14')
-    rep.rule('R01.15', '++ and --: for every integer object type, pointers and bit-fields the tree built for the prefix form yields the new value and the tree built for the postfix form yields the value the object had before, and both store (T)(x +/- 1) (C11 6.5.2.4, 6.5.3.1); decided by evaluating the built tree on boundary values', floor=76)
+    rep.rule('R01.15', '++ and --: for every integer object type, pointers and bit-fields the tree built for the prefix form yields the new value and the tree built for the postfix form yields the value the object had before, and both store (T)(x +/- 1) (C11 6.5.2.4, 6.5.3.1); decided by evaluating the built tree on boundary values', floor=60)
     r_incdec(P, rep, 'R01.15')
-    rep.rule('R01.16', 'integer promotions of bit-field operands (C11 6.3.1.1p2): a bit-field of type _Bool/int/unsigned whose values all fit an int is an int in arithmetic, comparisons, shifts and unary operators, whatever its declared type', floor=30)
+    rep.rule('R01.16', 'integer promotions of bit-field operands (C11 6.3.1.1p2): a bit-field of type _Bool/int/unsigned whose values all fit an int is an int in arithmetic, comparisons, shifts and unary operators, whatever its declared type', floor=18)
     r_bitfield_operands(P, rep, 'R01.16')
     from .c16 import r_atomic_operand_type
     r_atomic_operand_type(P, rep, 'R01.4')
